@@ -19,6 +19,7 @@ import (
 	"github.com/goatcms/goatcore/app/modules/ocm"
 	"github.com/goatcms/goatcore/app/modules/pipelinem"
 	"github.com/goatcms/goatcore/app/modules/pipelinem/pipservices"
+	"github.com/goatcms/goatcore/app/modules/pipelinem/pipservices/namespaces"
 	"github.com/goatcms/goatcore/app/modules/terminalm"
 	"github.com/goatcms/goatcore/app/terminal"
 	"github.com/goatcms/goatcore/filesystem"
@@ -196,6 +197,44 @@ func newPipApp() (pa *pipApp, err error) {
 		e := pipRun.Callback()(a, ctx)
 		pa.log.add("SR", id, e == nil) // the submission result, logged right after pip:run returned
 		return e
+	}}))
+	// fork <id> --name=a --body=.. --name2=b --body2=..: ONE command that submits TWO nested tasks through
+	// Runner.Run on its own command scope (what pip:run does, twice, without waiting in between), waits
+	// until the first one has finished and returns nil.  The two tasks run concurrently.
+	term.SetCommand(terminal.NewCommand(terminal.CommandParams{Name: "fork", Callback: func(a app.App, ctx app.IOContext) error {
+		var d struct {
+			ID    string `command:"?$1"`
+			Name  string `command:"?name"`
+			Body  string `command:"?body"`
+			Name2 string `command:"?name2"`
+			Body2 string `command:"?body2"`
+
+			NamespacesUnit pipservices.NamespacesUnit `dependency:"PipNamespacesUnit"`
+		}
+		if e := goaterr.ToError(goaterr.AppendError(nil, ctx.Scope().InjectTo(&d), a.InjectTo(&d))); e != nil {
+			return e
+		}
+		pa.log.add("B", d.ID, true)
+		ns, e := d.NamespacesUnit.FromScope(ctx.Scope(), namespaces.NewNamespaces(pipservices.NamasepacesParams{}))
+		if e != nil {
+			return e
+		}
+		e1 := pa.runner.Run(pa.pip(ctx.Scope(), ns, d.Name, nil, d.Body))
+		e2 := pa.runner.Run(pa.pip(ctx.Scope(), ns, d.Name2, nil, d.Body2))
+		pa.log.add("SR", d.ID, e1 == nil && e2 == nil)
+		if e1 == nil {
+			if mgr, e := pa.tasksUnit.FromScope(ctx.Scope()); e == nil {
+				full := d.Name
+				if ns.Task() != "" {
+					full = ns.Task() + ":" + d.Name
+				}
+				if t, ok := mgr.Get(full); ok {
+					guarded(5*time.Second, func() error { t.Wait(); return nil })
+				}
+			}
+		}
+		pa.log.add("FK", d.ID, true) // the command returns now (nil: the error is in the shared context)
+		return goaterr.ToError(goaterr.AppendError(nil, e1, e2))
 	}}))
 	return pa, nil
 }
